@@ -545,6 +545,83 @@ Proof.
   - eapply Permutation_in; [apply Permutation_sym|]; eauto.
 Qed.
 
+(* ------------------------------------------------------------------ *)
+(* the pipeline level: warnings                                         *)
+
+(* the statement about warnings, in the property's words *)
+Definition offending (es : list entry) (i : nat) : Prop :=
+  exists ei j ej, nth_error es i = Some ei /\ j <> i /\ nth_error es j = Some ej /\
+                  e_verb ei = e_verb ej /\ exists w, matches (segs ei) w /\ matches (segs ej) w.
+
+Definition P_C15_warned (es : list entry) (w : list nat) : Prop :=
+  forall i, In i w <-> offending es i.
+
+Lemma offends_offending es i : offends es i = true <-> offending es i.
+Proof.
+  rewrite offends_spec. unfold offending.
+  split; intros [ei [j [ej [Hi [Hne [Hj [Hv Hp]]]]]]]; exists ei, j, ej; repeat split; auto;
+    apply overlap_spec; exact Hp.
+Qed.
+
+Lemma offending_lt es i : offending es i -> i < List.length es.
+Proof. intros [ei [_ [_ [Hi _]]]]. apply nth_error_Some. congruence. Qed.
+
+Theorem prop_C15_warned_spec es w : prop_C15_warned es w = true <-> P_C15_warned es w.
+Proof.
+  unfold prop_C15_warned, P_C15_warned. rewrite andb_true_iff, !forallb_forall. split.
+  - intros [Ha Hb] i. split.
+    + intros Hin. assert (Hlt : i < List.length es) by (apply Nat.ltb_lt, Hb, Hin).
+      specialize (Ha i ltac:(apply in_seq; lia)). apply Bool.eqb_prop in Ha.
+      apply offends_offending. rewrite Ha. apply (mem_spec Nat.eqb Nat.eqb_eq). exact Hin.
+    + intros Ho. pose proof (offending_lt _ _ Ho) as Hlt.
+      specialize (Ha i ltac:(apply in_seq; lia)). apply Bool.eqb_prop in Ha.
+      apply offends_offending in Ho. rewrite Ho in Ha.
+      apply (mem_spec Nat.eqb Nat.eqb_eq). auto.
+  - intros H. split.
+    + intros i _. apply Bool.eqb_true_iff. apply Bool.eq_true_iff_eq.
+      rewrite offends_offending, (mem_spec Nat.eqb Nat.eqb_eq). symmetry. apply H.
+    + intros i Hin. apply Nat.ltb_lt. apply offending_lt, H, Hin.
+Qed.
+
+Lemma warned_in es i :
+  In i (warned es) <-> exists a b, In (a, b) (map fst (find_conflicts_obs es)) /\ (a = i \/ b = i).
+Proof.
+  unfold warned. rewrite in_flat_map. split.
+  - intros [[[a b] r] [Hin Hi]]. simpl in Hi. exists a, b. split.
+    + apply in_map_iff. exists (a, b, r); auto.
+    + destruct Hi as [E|[E|[]]]; auto.
+  - intros [a [b [Hin Hor]]]. apply in_map_iff in Hin as [[[a' b'] r] [E Hin]].
+    simpl in E. inversion E; subst a' b'. exists (a, b, r). split; auto. simpl. tauto.
+Qed.
+
+(* api.validator.go warns both ends of every conflict: with the conflicts of the model the warned
+   entries are exactly the offending ones, for every route list *)
+Theorem warned_P es : P_C15_warned es (warned es).
+Proof.
+  destruct (find_conflicts_P es) as [Hs Hc]. intros i. rewrite warned_in. split.
+  - intros [a [b [Hin Hor]]].
+    destruct (Hs a b Hin) as [Hne [ea [eb [Ha [Hb [Hv Hw]]]]]].
+    destruct Hor as [E|E]; subst i.
+    + exists ea, b, eb. repeat split; auto.
+    + exists eb, a, ea. repeat split; auto. destruct Hw as [w [H1 H2]]. exists w; auto.
+  - intros [ei [j [ej [Hi [Hne [Hj [Hv Hw]]]]]]].
+    apply (Hc i ei Hi). exists j, ej. auto.
+Qed.
+
+Theorem warned_prop es : prop_C15_warned es (warned es) = true.
+Proof. apply prop_C15_warned_spec, warned_P. Qed.
+
+(* for every project: the methods the validator warns are exactly the methods whose mounted route
+   overlaps with another same-verb mounted route *)
+Theorem pipeline_full ms : prop_C15_pipeline ms (warned_methods ms) = true.
+Proof.
+  unfold prop_C15_pipeline, warned_methods.
+  change (map mounted_entry ms) with (map impl_entry ms). apply warned_prop.
+Qed.
+
+Theorem pipeline_full_P ms : P_C15_warned (map mounted_entry ms) (warned_methods ms).
+Proof. apply prop_C15_warned_spec. exact (pipeline_full ms). Qed.
+
 (* non-vacuity: a concrete list on which all four report kinds and a triple duplicate occur *)
 From Coq Require Import String.
 Definition demo_entries : list entry :=
@@ -557,4 +634,32 @@ Example demo_nonvacuous :
   [(1, 0); (0, 2); (0, 4); (5, 6); (5, 7); (7, 6); (7, 6)] /\
   prop_C15 demo_entries (map fst (find_conflicts_obs demo_entries)) = true /\
   prop_C15 demo_entries [(1, 0); (0, 4)] = false.
+Proof. vm_compute. repeat split. Qed.
+
+(* non-vacuity at the level of projects: controllers mounted under different prefixes *)
+Definition M (p r v : string) : method := {| m_prefix := s p; m_route := s r; m_verb := s v |}.
+
+(* same method routes under different prefixes: nothing collides, nobody is warned *)
+Definition demo_apart : list method :=
+  [M "/users" "/{id}" "GET"; M "/posts" "/{id}" "GET"]%string.
+(* different method routes that are mounted at the same place: both are warned *)
+Definition demo_across : list method :=
+  [M "/a" "/b" "GET"; M "" "/a/b" "GET"]%string.
+
+Definition demo_project : list method :=
+  [M "/api" "/{id}" "GET"; M "/api" "/health" "GET"; M "/api" "/{id}" "POST";
+   M "/api/" "x/{a}" "GET"; M "/api" "/{k}/{b}" "GET"; M "/api" "/y" "PUT";
+   M "/v2" "/health" "GET"; M "" "/api/{z}" "POST"]%string.
+
+Example demo_pipeline_nonvacuous :
+  warned_methods demo_apart = [] /\
+  prop_C15_pipeline demo_apart [] = true /\
+  prop_C15_pipeline demo_apart [0; 1] = false /\
+  warned_methods demo_across = [1; 0] /\
+  prop_C15_pipeline demo_across [1; 0] = true /\
+  prop_C15_pipeline demo_across [] = false /\
+  warned_methods demo_project = [1; 0; 3; 4; 2; 7; 2; 7] /\
+  prop_C15_pipeline demo_project (warned_methods demo_project) = true /\
+  prop_C15_pipeline demo_project [0; 1; 3; 4] = false /\
+  prop_C15_pipeline demo_project [0; 1; 2; 3; 4; 6; 7] = false.
 Proof. vm_compute. repeat split. Qed.
